@@ -198,6 +198,13 @@ def run_enum(ctx, spec):
 
 # -- (b) random sequences on grids from geometries ------------------------------------------------
 
+def own_fix(name):
+    """(a3,i2) spelling 'AB1 5' -> 'AB105' (user guide: fix_blockname)."""
+    if len(name) == 5 and name[2].isdigit() and name[3] == ' ' and name[4].isdigit():
+        return name[:3] + '0' + name[4]
+    return name
+
+
 MUTATORS = ['add_rocktype', 'delete_rocktype', 'clean_rocktypes', 'rename_rocktype', 'add_block', 'delete_block',
             'demote_block', 'add_connection', 'delete_connection', 'reorder', 'rename_blocks', 'minc', 'fromgeo',
             '__add__', 'embed', 'check', 'sort_rocktypes', 'empty']
@@ -266,8 +273,22 @@ def run_random(ctx, spec):
                         while n in names or n in fresh:
                             n = 'Q%s%s%02d' % (rng.choice('ABCDEFGH'), rng.choice('ABCDEFGH'), rng.randint(10, 99))
                         fresh.append(n)
+                    unfixed = rng.random() < 0.4
+                    if unfixed:
+                        # the new names as a MESHMAKER-style (a3,i2) mesh spells them ('QA1 5'): rename_blocks() turns
+                        # them into the fixed form ('QA105') - for the blocks, the dictionaries and the blocks'
+                        # connection-name records alike
+                        fresh = []
+                        while not fresh or len(set(map(own_fix, fresh))) < len(fresh) or any(own_fix(n) in names for n in fresh):
+                            fresh = ['Q%s%d %d' % (rng.choice('ABCDEFGH'), rng.randint(1, 9), rng.randint(0, 9)) for _ in src]
+                        ctx.count('renames_to_names_needing_fixing')
                     op = ('rename_blocks', sorted(zip(src, fresh)))
                     g.rename_blocks(dict(op[1]))
+                    if unfixed:
+                        wrong = [own_fix(n) for n in fresh if own_fix(n) not in g.block or n in g.block]
+                        if wrong:
+                            ctx.violation('rename-names-not-fixed', 'rename_blocks(%r): blocks %r expected afterwards, grid has %r' % (
+                                dict(op[1]), wrong, sorted(b.name for b in g.blocklist if b.name.startswith('Q'))[:6]), dict(case, ops=ops_done + [list(op)]))
                 elif r < 0.3:
                     perm = list(names)
                     rng.shuffle(perm)
